@@ -89,6 +89,27 @@ impl Message<Work> for BA {
     }
 }
 
+/// Messages with an id in 70..=79 are bulky: 128 KiB carried inline (by value through every future on the way).
+pub fn is_bulky_id(id: u32) -> bool {
+    (70..=79).contains(&id)
+}
+
+pub struct Bulk(pub u32, pub [u8; 131072]);
+
+impl Message<Bulk> for BA {
+    type Reply = u32;
+    async fn handle(&mut self, m: Bulk, _r: &ActorRef<Self>) -> u32 {
+        self.log.lock().unwrap().push((Instant::now(), Log::Called(m.0)));
+        let s = self.seq;
+        self.seq += 1;
+        self.log.lock().unwrap().push((Instant::now(), Log::Exit(m.0, s)));
+        m.0 * 100 + s + (m.1[777] as u32)
+    }
+    fn on_tell_result(result: &u32, _r: &ActorRef<Self>) {
+        crate::msched::BT_SINK.lock().unwrap_or_else(|e| e.into_inner()).tell_results.push(*result / 100);
+    }
+}
+
 /// Messages with an id in 90..=99 make their handler panic (after its gate, if it has one).
 pub fn is_panicking_id(id: u32) -> bool {
     (90..=99).contains(&id)
@@ -242,6 +263,14 @@ fn do_blocking(r: &ActorRef<BA>, op: &BOp) -> BRes {
     // u64::MAX stands for the largest Duration there is
     let t = |ms: &Option<u64>| ms.map(|m| if m == u64::MAX { Duration::MAX } else { Duration::from_millis(m) });
     let out = std::panic::catch_unwind(std::panic::AssertUnwindSafe(|| match op {
+        BOp::Tell { id, timeout, .. } if is_bulky_id(*id) => match r.blocking_tell(Bulk(*id, [0u8; 131072]), t(timeout)) {
+            Ok(()) => BRes::Ok,
+            Err(e) => BRes::Err(err_name(&e)),
+        },
+        BOp::Ask { id, timeout, .. } if is_bulky_id(*id) => match r.blocking_ask(Bulk(*id, [0u8; 131072]), t(timeout)) {
+            Ok(v) => BRes::Reply(v),
+            Err(e) => BRes::Err(err_name(&e)),
+        },
         BOp::Tell { id, gate, timeout } => match r.blocking_tell(Work(*id, *gate), t(timeout)) {
             Ok(()) => BRes::Ok,
             Err(e) => BRes::Err(err_name(&e)),
@@ -540,7 +569,7 @@ pub fn run_order(scn: &BScenario, order: &[usize]) -> BRun {
     }
     let log_before_release = log.lock().unwrap().len();
     for g in gates.iter() {
-        g.add_permits(64);
+        g.add_permits(256);
     }
     let _ = log_before_release;
     let patience = Instant::now() + Duration::from_millis(2500);
@@ -765,7 +794,7 @@ pub fn check_run(scn: &BScenario, run: &BRun) -> Vec<(String, String)> {
     {
         let want_type = std::any::type_name::<Work>();
         for d in &run.dls {
-            if d.actor_id != run.actor_id || d.msg_type != want_type {
+            if d.actor_id != run.actor_id || (d.msg_type != want_type && d.msg_type != std::any::type_name::<Bulk>()) {
                 v("C17 dead letter names target and message type", format!("record {d:?}; the target is actor {} and the message type {want_type}", run.actor_id));
             }
         }
@@ -1098,7 +1127,7 @@ pub fn scenarios(thorough: bool) -> Vec<BScenario> {
             BCaller { erased: false, ctx: Ctx::Async, ops: vec![BOp::Burst { first: 100, n: 40 }, BOp::Kill, BOp::OpenGate(0)] },
         ],
     });
-    // S21: twenty threads are inside bounded blocking asks (3 s) on a busy actor when one more bounded ask (100 ms)
+    // S21: eighty threads are inside bounded blocking asks (3 s) on a busy actor when one more bounded ask (100 ms)
     // is made: it has its own deadline
     v.push(BScenario {
         name: "b21-many-bounded-calls-in-flight".into(),
@@ -1106,9 +1135,20 @@ pub fn scenarios(thorough: bool) -> Vec<BScenario> {
         gates: 1,
         pool: None,
         callers: vec![
-            BCaller { erased: false, ctx: Ctx::Async, ops: vec![BOp::BgBoundedAsks { first: 200, n: 20, gate: 0, timeout: 3000 }] },
+            BCaller { erased: false, ctx: Ctx::Async, ops: vec![BOp::BgBoundedAsks { first: 200, n: 80, gate: 0, timeout: 3000 }] },
             BCaller { erased: false, ctx: Ctx::Thread, ops: vec![a(9, Some(0), Some(100))] },
             BCaller { erased: false, ctx: Ctx::Async, ops: vec![BOp::Wait(1500), BOp::OpenGate(0)] },
+        ],
+    });
+    // S22: bulky messages (128 KiB inline) through every blocking form
+    v.push(BScenario {
+        name: "b22-bulky-messages".into(),
+        cap: 2,
+        gates: 0,
+        pool: None,
+        callers: vec![
+            BCaller { erased: false, ctx: Ctx::Thread, ops: vec![t(70, None, Some(500)), a(71, None, Some(500))] },
+            BCaller { erased: false, ctx: Ctx::SpawnBlocking, ops: vec![a(72, None, None), t(73, None, None)] },
         ],
     });
     // S6: unusual timeout values
